@@ -47,9 +47,11 @@ type tunnelResult struct {
 	UpEOF      bool   // orderly end of the user's stream seen
 	UpMismatch string // first content mismatch
 	UpErr      string
+	EndErr     string // how waiting for the end of the user's stream ended when it was not an orderly EOF
 	DownSent   int64
 	DownErr    string
-	Done       chan struct{}
+	UpComplete chan struct{} // closed when the user's stream was verified up to its size (or failed)
+	Done       chan struct{} // closed when the backend side of the tunnel ended
 }
 
 // respPlan tells the backend how to answer the request carrying the tag.
@@ -322,7 +324,9 @@ func (b *rawBackend) tunnel(c net.Conn, br *bufio.Reader, p *respPlan) {
 	} else if err != nil {
 		res.UpErr = err.Error()
 	}
+	close(res.UpComplete)
 	if res.UpMismatch == "" && res.UpErr == "" {
+		rd.idle = 10 * time.Second
 		one := make([]byte, 1)
 		k, err := rd.Read(one)
 		if k == 0 && err == io.EOF {
@@ -330,7 +334,7 @@ func (b *rawBackend) tunnel(c net.Conn, br *bufio.Reader, p *respPlan) {
 		} else if k > 0 {
 			res.UpMismatch = fmt.Sprintf("extra byte 0x%02x after the %d bytes the user wrote", one[0], p.UpSize)
 		} else if err != nil {
-			res.UpErr = "waiting for end of stream: " + err.Error()
+			res.EndErr = err.Error()
 		}
 	}
 	wg.Wait()
